@@ -285,10 +285,26 @@ class C07(Property):
                                "sched": [0] * c + [0] * g + [1] * g + [2] * g + [0]})
         return cs
 
+    def _crashed_leader_cases(self):
+        """The leader's function panics / exits its goroutine while TWO callers are parked in its flight, and a new caller
+        arrives right after (while - in a variant that lets the waiters run their own function - a waiter's execution is in
+        progress): SingleFlight DoEx / Do, GetResource, collection.Cache.Take, cache node Take / TakeWithExpire.  The
+        waiters must come out without a second execution of the key overlapping anything (seeded C07-10: waiters of a
+        crashed leader get an UNREGISTERED call and run their own function outside the per-key exclusion; its clean-up
+        deletes whatever call is registered)."""
+        cs = []
+        for kind in (0, 3, 2, 4, 5, 8):
+            g = 2 if kind in (2, 4) else 1
+            for e in (PANIC, GOEXIT):
+                # ... and the same with a third arrival while the second one's (legitimate) execution runs
+                cs.append({"scripts": self._mk_scripts([[(kind, 1, e)], [(kind, 1, 0)], [(kind, 1, 0)], [(kind, 1, 0)], [(kind, 1, 0)]]),
+                           "sched": [0] * g + [1] * g + [2] * g + [0] + [3] * g + [4] * g})
+        return cs
+
     def corpus(self):
         wake, many = self._wake_order_cases(), self._many_keys_cases()
         # (the big many-keys terms are spread over the first shards of the Coq evaluation)
-        cs = many[:1] + wake[:64] + many[1:4] + wake[64:] + many[4:] + self._invalidation_cases() + self._leftover_cases()
+        cs = many[:1] + wake[:64] + many[1:4] + wake[64:] + many[4:] + self._invalidation_cases() + self._leftover_cases() + self._crashed_leader_cases()
         # leader, joiner, late caller after completion (must start a new execution)
         cs.append({"scripts": self._mk_scripts([[(0, 1, 0)], [(0, 1, 0)], [(0, 1, 0)]]), "sched": [0, 1, 0, 2, 2]})
         # same thread calls twice: the second call must not see the first result
